@@ -87,7 +87,7 @@ PROPS.update({
                          "thorough": "DEEP on every binade, far digit out to 10^6"},
         assumptions=ASSUME_EXACT),
     "C07": dict(
-        sub="c07", cfgs=FIVE, rule=VALUE_RULE + " Only inputs whose exact value is below 2^-1021 / 2^-125, at or above 2^1023 / 2^127, zero, or whose exponent argument exceeds 400 in magnitude are judged here.",
+        sub="c07", cfgs=FIVE, profiles=["release", "dbg"], rule=VALUE_RULE + " Only inputs whose exact value is below 2^-1021 / 2^-125, at or above 2^1023 / 2^127, zero, or whose exponent argument exceeds 400 in magnitude are judged here.",
         exhaustive_over={"quick": "8 IEEE thresholds per format at every prefix length (truncated and +1) with compensating zeros up to 5000; ~2400 exponent classes x 30 digit shapes incl. i32::MIN/MAX; SHORT(3) and SEAM in the end windows; 13 end binades x patterns; 1/16 of the f32 subnormal and top binade midpoints",
                          "thorough": "compensation up to 10^5, SHORT(4), complete f32 subnormal and top binades"},
         assumptions=ASSUME_EXACT),
